@@ -340,6 +340,7 @@ PREFIXES = [
     [["expr", "l", ["pair", ["loc", "a"]]], ["expr", "b", ["add", ["loc", "l1"], ["const", 1]]]],
     [["expr", "b", ["add", ["loc", "l1"], ["const", 1]]], ["expr", "l", ["pair", ["loc", "a"]]]],
     [["expr", "l", ["pair", ["loc", "c"]]], ["expr", "a", ["lidx", ["mod", ["abs", ["loc", "b"]], ["const", 2]]]]],
+    [["expr", "a", ["pidx", ["mul", ["loc", "c"], ["const", 2]], 1]]],
 ]
 
 
